@@ -85,12 +85,14 @@ pub fn check_accepted(case: &Case, ui: &[u8], header: &str) -> Result<usize, (St
     let updates: Vec<&hdr::Func> = h.funcs.iter().filter(|fu| fu.name.starts_with("update")).collect();
     let setter_calls = |acc: &str, setter: &str| -> usize { updates.iter().filter(|fu| fu.body.iter().any(|l| l.trim().starts_with(&format!("{acc}->{setter}(")))).count() };
     let m = crate::meta::meta();
+    // several properties may share one setter (QLCDNumber.value / intValue -> display): count per (object, setter)
+    let dyn_with_setter = |obj: &[usize], w: &str| -> usize { case.dyns.iter().filter(|d| d.obj == obj && matches!(&d.kind, DynKind::Binding { setter, .. } if setter == w)).count() };
     for e in &case.expects {
         if let Surface::Prop(n) = &e.surface {
             let o = case.root.at(&e.obj);
             if let Some(pi) = m.prop(&o.class, n) {
                 if let Some(w) = &pi.write {
-                    if setter_calls(&access(&names, &e.obj), w) > 0 && !case.mixed.iter().any(|(p, g, _, _)| *p == e.obj && g == n) {
+                    if setter_calls(&access(&names, &e.obj), w) > dyn_with_setter(&e.obj, w) && !case.mixed.iter().any(|(p, g, _, _)| *p == e.obj && g == n) {
                         return Err(("constant-also-in-header".into(), format!("constant binding {n} of {:?} is in the .ui and also has an update function", e.obj)));
                     }
                 }
@@ -106,7 +108,7 @@ pub fn check_accepted(case: &Case, ui: &[u8], header: &str) -> Result<usize, (St
         match &d.kind {
             DynKind::Binding { prop, setter } => {
                 let k = setter_calls(&acc, setter);
-                if k != 1 {
+                if k != dyn_with_setter(&d.obj, setter) {
                     return Err((if k == 0 { "dynamic-binding-in-neither" } else { "dynamic-binding-twice" }.into(), format!("dynamic binding `{}: {}` of {:?}: {k} update functions call {acc}->{setter}(...)", b.path, b.value, d.obj)));
                 }
                 if let Some(fo) = fobj_at(&case.root, &f, &d.obj) {
